@@ -68,6 +68,8 @@ EXPECT = [
     ('let Agent.shutdown() deal with contacts that are already ending', ['C09']),
     ('remove received Previous Node and Bundle Age blocks by type code', ['C11']),
     ('do not let our own keepalives postpone the close', ['C14']),
+    ('disconnect every contact in Agent.stop()', ['C09']),
+    ('keep the type code of an encrypted block whose type was implied', ['C16']),
 ]
 
 
